@@ -153,9 +153,47 @@ def t_after_failure(acc, m, L, n_long, live, upto=None, how=None):
     _LIVE.clear()
 
 
+def t_live_long(acc, m, upto=None):
+    """Wave 6: live node objects rewritten in place, asked about LONG words (33-70 letters) - a shortcut that only long
+    words take (another algorithm, a per-object table) must follow the rewriting too.  Expressions with <= m nodes."""
+    from gambatools.regexp_algorithms import regexp_accepts_word
+    def tup(x):
+        return tuple(tup(y) for y in x) if isinstance(x, list) else x
+    upto = tup(upto) if upto is not None else None
+    _LIVE.clear()
+    long_words = ['a' * 33, 'b' * 33, 'ab' * 20, 'a' * 40 + 'b', 'b' + 'a' * 69]
+    def cheap(r):
+        # the naive matcher is exponential on a star whose operand matches the empty word; those are asked short words only
+        if r[0] == '*':
+            return not rx.nullable(r[1]) and cheap(r[1])
+        return all(cheap(x) for x in r[1:] if isinstance(x, tuple))
+    for idx, spec in rx.trees_up_to(m):
+        if not cheap(spec):
+            continue
+        r = morph(spec)
+        rp = {'fn': 'mc.props.c05:t_live_long', 'mode': 'plain', 'params': {'m': m, 'upto': spec}}
+        acc.states += 1
+        for w in long_words:
+            inst = {'regexp': rx.show(spec), 'word': '%s... (%d letters)' % (w[:6], len(w)), 'presented_as': 'live node objects rewritten in place'}
+            ok, got = core.lib_call(acc, 'regexp_accepts_word', inst, regexp_accepts_word, r, w, repro=rp)
+            acc.transitions += 1
+            if ok:
+                acc.evals += 1
+                acc.validated += 1
+                exp = rx.matches(spec, w)
+                if exp:
+                    acc.nontrivial += 1
+                if got is not exp:
+                    acc.viol('regexp_accepts_word', 'verdict differs from membership in the denoted language', inst, repro=rp, observed=got, expected=exp)
+        if upto is not None and spec == upto:
+            break
+    _LIVE.clear()
+
+
 def plan(tier, seed):
     tasks = []
     T = 'mc.props.c05:t_space'
+    tasks.append(('plain', 'mc.props.c05:t_live_long', {'m': 3}))
     tasks.append(('plain', 'mc.props.c05:t_after_failure', {'m': 4, 'L': 3, 'n_long': 3000, 'live': True}))
     tasks.append(('plain', 'mc.props.c05:t_after_failure', {'m': 4, 'L': 3, 'n_long': 3000, 'live': False}))
     tasks.extend(('plain', 'mc.props.c05:t_bait', {'m': 3, 'L': 3, 'shard': s_, 'nshard': 8}) for s_ in range(8))
@@ -181,4 +219,4 @@ def plan(tier, seed):
         bounds += '; thorough adds RE(6) x words <= 6, RE(7) x words <= 5, RE(9) (665 252 trees) x words <= 3, DAG RE(7), two-character symbols and digit symbols on RE(6)'
     return {'tasks': tasks, 'bounds': {'spaces': bounds}, 'exhaustive': True,
             'rule': 'every expression tree with <= m nodes over leaves 0,1,a,b and operators *,+,. x every word over {a,b} up to L (matcher vs Brzozowski derivatives); simplifier vs exact Glushkov equivalence; non-trivial = accepts some but not all tested words',
-            'assumptions': ['symbols are single characters or identifiers (ab, ba); a word is a string', 'wave 5: rewrite-rule bait family (12 shapes x all pairs of subterms with <= 3 nodes, 11-13 nodes each); RE(4) again after calls stopped by the recursion limit (a* on a^3000), as fresh objects and through live node objects rewritten in place; a RecursionError on a very long word is the environment resource limit and is not judged']}
+            'assumptions': ['symbols are single characters or identifiers (ab, ba); a word is a string', 'wave 5: rewrite-rule bait family (12 shapes x all pairs of subterms with <= 3 nodes, 11-13 nodes each); RE(4) again after calls stopped by the recursion limit (a* on a^3000), as fresh objects and through live node objects rewritten in place; a RecursionError on a very long word is the environment resource limit and is not judged', 'wave 6: RE(3) through live node objects on words of 33-70 letters']}
